@@ -381,4 +381,19 @@ def Q.crashAdvFiles (verify : Bytes → Bool) (q : Q) (k : Nat) : List Bytes × 
       let torn := tornWrite h.file post k
       (setHead q.files torn, some (tornObs h.file post torn))
 
+/-- Crash during the creation of the new segment file that `Queue.Append b` needs
+    (`addSegment`: create, write the 8-byte zero footer, fsync), after `k` bytes of
+    the footer.  `same`: 1 = the file is still empty, 2 = the footer is complete. -/
+def Q.crashSegFiles (q : Q) (b : Bytes) (k : Nat) : List Bytes × Option TornObs :=
+  if q.total + b.length > q.maxSize then (q.files, none)
+  else match q.segs.getLast? with
+    | none => (q.files, none)
+    | some t =>
+      match t.append b with
+      | .ok _ => (q.files, none)
+      | .error .segFull =>
+        let torn := (be64 0).take k
+        (q.files ++ [torn],
+         some { size := torn.length, footer := 0, same := if k = 0 then 1 else if k ≥ 8 then 2 else 0 })
+
 end Influx.DQ
